@@ -604,6 +604,15 @@ func lemmaReencodeTWCCPre(raw []byte) (p TransportLayerCC, err, err2 error) {
 	return p, nil, err2
 }
 
+// lemmaReencodeCCFBPre (C09): the size bound CCFeedbackReport.Marshal requires holds for every packet the decoder accepts.
+func lemmaReencodeCCFBPre(raw []byte) (p CCFeedbackReport, err, err2 error) {
+	if err = p.Unmarshal(raw); err != nil {
+		return
+	}
+	_, err2 = p.Marshal()
+	return p, nil, err2
+}
+
 // RawPacket (C02, C09): the packet is the frame itself, so both directions are identities on the bytes.
 func lemmaRoundTripRaw(p RawPacket) (q RawPacket, err, err2 error) {
 	b, err := p.Marshal()
